@@ -41,8 +41,8 @@ PROPS['C18'] = {
     'assumptions': ['Python ints are unbounded (modelled as Int)'],
 }
 
-DYN_QUICK = [(CORE, 'fam_trans_smallscope', 0, 16), (CORE, 'fam_trans_random', 6000, 16)]
-DYN_THOROUGH = [(CORE, 'fam_trans_smallscope', 0, 16), (CORE, 'fam_trans_random', 400000, 16)]
+DYN_QUICK = [(CORE, 'fam_trans_smallscope', 0, 16), (CORE, 'fam_trans_random', 6000, 16), (CORE, 'fam_trans_history', 1600, 16)]
+DYN_THOROUGH = [(CORE, 'fam_trans_smallscope', 0, 16), (CORE, 'fam_trans_random', 400000, 16), (CORE, 'fam_trans_history', 80000, 16)]
 
 PROPS['C08'] = {
     'targets': ['GridVerse.Props.C08'],
@@ -127,8 +127,8 @@ PROPS['C06'] = {
     'theorem_files': [('GridVerse/Props/C06.lean', 'C06_')] + AG('Objects'),
     'audit_prefix': 'C06_',
     'families': {
-        'quick': [(OBSM, 'fam_obs_random', 8000, 16), (OBSM, 'fam_vis_patterns', 0, 16), (OBSM, 'fam_obs_smallscope', 3000, 16)],
-        'thorough': [(OBSM, 'fam_obs_random', 400000, 16), (OBSM, 'fam_vis_patterns', 0, 16), (OBSM, 'fam_obs_smallscope', 0, 16)],
+        'quick': [(OBSM, 'fam_obs_random', 8000, 16), (OBSM, 'fam_vis_patterns', 0, 16), (OBSM, 'fam_obs_smallscope', 3000, 16), (OBSM, 'fam_obs_bigviews', 40, 16)],
+        'thorough': [(OBSM, 'fam_obs_random', 400000, 16), (OBSM, 'fam_vis_patterns', 0, 16), (OBSM, 'fam_obs_smallscope', 0, 16), (OBSM, 'fam_obs_bigviews', 800, 16)],
     },
     'trusted_base': [
         'IEEE division facts flDivOK (0/d = 0, n/n = 1, 0 < n/d < 1 for 0 < n < d, nan_to_num(0/0) = 0): checked by the driver on the actual quotients the harness sends',
@@ -138,14 +138,14 @@ PROPS['C06'] = {
 }
 
 ENVM = 'harness.corr_env'
-ENV_QUICK = [(ENVM, 'fam_env_shipped', 168, 16), (ENVM, 'fam_env_random', 800, 16)]
-ENV_THOROUGH = [(ENVM, 'fam_env_shipped', 21 * 200, 16), (ENVM, 'fam_env_random', 40000, 16)]
+ENV_QUICK = [(ENVM, 'fam_env_shipped', 168, 16), (ENVM, 'fam_env_random', 800, 16), (ENVM, 'fam_env_nodebug', 320, 16)]
+ENV_THOROUGH = [(ENVM, 'fam_env_shipped', 21 * 200, 16), (ENVM, 'fam_env_random', 40000, 16), (ENVM, 'fam_env_nodebug', 8000, 16)]
 
 PROPS['C04'] = {
     'targets': ['GridVerse.Props.C04'],
     'theorem_files': [('GridVerse/Props/C04.lean', 'C04_')],
     'audit_prefix': 'C04_',
-    'families': {'quick': ENV_QUICK, 'thorough': ENV_THOROUGH},
+    'families': {'quick': ENV_QUICK + [(ENVM, 'fam_gym_shipped', 84, 16)], 'thorough': ENV_THOROUGH + [(ENVM, 'fam_gym_shipped', 21 * 60, 16)]},
     'oracle_cases': {'quick': 1600, 'thorough': 60000},
     'trusted_base': ['environment shells modelled by hand (Model/Env.lean); histories of reset/step/read operations on every shipped configuration (factory-built and hand-assembled) and random compositions, with every generator call recorded'],
     'assumptions': ['on an exception the model machine keeps the pre-operation generator state (exact for exceptions raised before the first draw, the only ones an in-space environment raises)'],
@@ -179,8 +179,8 @@ PROPS['C15'] = {
 }
 
 PROPS['C16'] = {
-    'targets': ['GridVerse.Props.C16'],
-    'theorem_files': [('GridVerse/Props/C16.lean', 'C16_'), ('GridVerse/Props/C15.lean', 'C15_')] + AG('Objects'),
+    'targets': ['GridVerse.Props.C16', 'GridVerse.Props.C16State'],
+    'theorem_files': [('GridVerse/Props/C16.lean', 'C16_'), ('GridVerse/Props/C16State.lean', 'C16_'), ('GridVerse/Props/C15.lean', 'C15_')] + AG('Objects'),
     'audit_prefix': 'C16_',
     'families': {'quick': REPR_QUICK[:3], 'thorough': REPR_THOROUGH[:3]},
     'oracle_cases': {'quick': 4800, 'thorough': 200000},
@@ -212,7 +212,7 @@ PROPS['C01'] = {
     'theorem_files': [('GridVerse/Props/C01.lean', 'C01_')] + AG('Objects', 'Actions'),
     'audit_prefix': 'C01_',
     'families': {
-        'quick': [(CORE, 'fam_trans_smallscope', 0, 16), (CORE, 'fam_trans_random', 3000, 16), (CORE, 'fam_reward', 1600, 16), (CORE, 'fam_term', 1600, 16), (ENVM, 'fam_env_shipped', 84, 16), (ENVM, 'fam_env_random', 640, 16), ('harness.corr_repr', 'fam_space_contains', 6000, 16)],
+        'quick': [(CORE, 'fam_trans_smallscope', 0, 16), (CORE, 'fam_trans_random', 3000, 16), (CORE, 'fam_reward', 1600, 16), (CORE, 'fam_term', 1600, 16), (ENVM, 'fam_env_shipped', 84, 16), (ENVM, 'fam_env_random', 640, 16), (ENVM, 'fam_env_nodebug', 480, 16), ('harness.corr_repr', 'fam_space_contains', 6000, 16)],
         'thorough': DYN_THOROUGH + REW_THOROUGH[:2] + ENV_THOROUGH + [('harness.corr_repr', 'fam_space_contains', 300000, 16)],
     },
     'oracle_cases': {'quick': 3200, 'thorough': 200000},
@@ -303,8 +303,8 @@ PROPS['C03'] = {
 
 WINM = 'harness.corr_win'
 PROPS['C14'] = {
-    'targets': ['GridVerse.Props.C14'],
-    'theorem_files': [('GridVerse/Props/C14.lean', 'C14_')],
+    'targets': ['GridVerse.Props.C14', 'GridVerse.Props.C14Teleport'],
+    'theorem_files': [('GridVerse/Props/C14.lean', 'C14_'), ('GridVerse/Props/C14Teleport.lean', 'C14_')],
     'audit_prefix': 'C14_',
     'families': {
         'quick': [(WINM, 'fam_win_theorem_plans', 1920, 16), (WINM, 'fam_win_solver', 960, 16), (WINM, 'fam_win_real_plans', 640, 16), (RESETM, 'fam_reset_random', 4000, 16), (CORE, 'fam_trans_random', 3000, 16), (CORE, 'fam_term', 2000, 16)],
@@ -320,9 +320,9 @@ PROPS['C14'] = {
         'winnable = some action sequence and some resolution of the draws reaches the rewarded goal with no earlier terminating step (exists-draws reading for the stochastic obstacle dynamics)',
         'each layout is paired with the dynamics and termination of the shipped configurations that use it',
     ],
-    'partial': 'Proved for all parameters and draws: empty, memory, keydoor (closed-form plans). rooms, crossing, teleport: only certificate soundness is proved; winnability is decided per sampled instance by a model-found plan executed on the real code (no for-all theorem yet). memory_rooms and crowded dynamic_obstacles are false today: known findings F9, F11.',
-    'level_text': 'Lean 4 theorems: closed-form winning plans for empty / memory / keydoor for every parameter value and draw stream, soundness of plan certificates for the other layouts; plans executed on the real dynamics.',
-    'level_note': 'Partial: for rooms, crossing, teleport, memory_rooms and dynamic_obstacles the for-all-parameters statement is not proved; those are decided per sampled instance via proved-sound certificates. Trusted: Lean kernel; standard axioms; hand-written model tied by differential execution.',
+    'partial': 'Proved for all parameters and draws: empty, memory, keydoor, teleport (closed-form plans). rooms, crossing: only certificate soundness is proved; winnability is decided per sampled instance by a model-found plan executed on the real code (no for-all theorem yet). memory_rooms and crowded dynamic_obstacles are false today: known findings F9, F11.',
+    'level_text': 'Lean 4 theorems: closed-form winning plans for empty / memory / keydoor / teleport for every parameter value and draw stream, soundness of plan certificates for the other layouts; plans executed on the real dynamics.',
+    'level_note': 'Partial: for rooms, crossing, memory_rooms and dynamic_obstacles the for-all-parameters statement is not proved; those are decided per sampled instance via proved-sound certificates. Trusted: Lean kernel; standard axioms; hand-written model tied by differential execution.',
 }
 
 NOT_CLAIMED = {}
